@@ -135,7 +135,17 @@ func (s *jwtSigner) load() error {
 
 	keys := make([]jose.JSONWebKey, len(ks.Entries()))
 	for idx, entry := range ks.Entries() {
+		if err = entry.CheckSigningSupport(); err != nil {
+			return errorchain.NewWithMessage(heimdall.ErrConfiguration,
+				"key store contains a key, which cannot be used for JWT signing purposes").CausedBy(err)
+		}
+
 		keys[idx] = entry.JWK()
+	}
+
+	if err = kse.CheckSigningSupport(); err != nil {
+		return errorchain.NewWithMessage(heimdall.ErrConfiguration,
+			"configured key cannot be used for JWT signing purposes").CausedBy(err)
 	}
 
 	s.mut.Lock()
